@@ -11,7 +11,7 @@ import (
 var RichTypes = []string{"string", "int8", "int16", "int32", "int64", "uint8", "uint16", "uint32", "uint64",
 	"decimal64", "boolean", "enum", "bits", "binary", "empty", "identityref", "union"}
 
-var RichListTypes = []string{"string", "int32", "enum", "uint64", "boolean", "decimal64", "identityref"}
+var RichListTypes = []string{"string", "int32", "enum", "uint64", "boolean", "decimal64", "identityref", "union"}
 
 type richGen struct {
 	r   *kit.Rng
